@@ -214,4 +214,20 @@ def standard_obligations(chk, props_file):
         else:
             chk.oblige("Print Assumptions (Props/%s): all %d property theorems closed under the global context" % (pf, info["n_print"]),
                        info["n_print"] > 0 and info["closed"] == info["n_print"] and not info["axioms"], out[-1500:])
+    if chk.tier == "thorough":
+        # the independent checker on the compiled property files and everything they depend on
+        mods = ["TEV.Props." + pf[:-2] for pf in [props_file] + EXTRA_PROPS.get(chk.pid, [])]
+        try:
+            ok_, summ, text_ = common.coqchk(mods)
+        except Exception as e:      # noqa
+            ok_, summ, text_ = False, {}, str(e)
+        allowed = set()
+        for pf in [props_file] + EXTRA_PROPS.get(chk.pid, []):
+            allowed |= ALLOWED_AXIOMS.get(pf, set())
+        ax = [a.split(" ")[0].rstrip(":") for a in summ.get("axioms", [])]
+        # coqchk prints kernel names (Coq.Logic.Classical_Prop.classic): compare by suffix
+        extra_ax = [a for a in ax if not any(a.endswith(x) for x in allowed)]
+        chk.oblige("coqchk -o %s: re-checked; axioms %s; nothing relies on type-in-type, unsafe fixpoints or assumed positivity" % (" ".join(mods), ax or "none"),
+                   ok_ and not extra_ax and not summ.get("type_in_type") and not summ.get("unsafe_fix") and not summ.get("positivity"), text_)
+        chk.cov["coqchk"] = summ
     return True
